@@ -187,6 +187,11 @@ func (r *reference) resolve(cfg *Config, opts *options) (value, error) {
 }
 
 func (r *reference) eval(cfg *Config, opts *options) (string, error) {
+	// r is active (cycle detection) only while it is being evaluated
+	active := opts.activeFields
+	opts.activeFields = newFieldSet(active)
+	defer func() { opts.activeFields = active }()
+
 	v, err := r.resolve(cfg, opts)
 	if err != nil {
 		return "", err
@@ -254,8 +259,13 @@ func (e *expansionAlt) eval(cfg *Config, opts *options) (string, error) {
 		return "", nil
 	}
 
+	// the reference is only tested for existence, it is not active any more
+	// when the alternative value gets evaluated
+	active := opts.activeFields
+	opts.activeFields = newFieldSet(active)
 	ref := newReference(parsePath(path, e.pathSep, opts.maxIdx, opts.enableNumKeys, opts.escapePath))
 	tmp, err := ref.resolve(cfg, opts)
+	opts.activeFields = active
 	if err != nil || tmp == nil {
 		return "", nil
 	}
